@@ -28,32 +28,261 @@ var commonAssumptions = []string{
 	"solver: z3 (4.8.12) over pipes; unknown or error answers are reported as inconclusive, never as unsat",
 }
 
+// evalList runs a concrete list-producing function of the cli harness.
+func evalList(c *checkCtx, fn string) []string {
+	out, err := interp.EvalStrings(c.p, groups["cli"].PkgPath, fn)
+	if err != nil {
+		fatal("%v", err)
+	}
+	return out
+}
+
+// rotate selects every nth element starting at seed mod n.
+func everyNth(xs []string, n int, seed int64) []string {
+	if n <= 1 {
+		return xs
+	}
+	var out []string
+	off := int(((seed % int64(n)) + int64(n)) % int64(n))
+	for i := off; i < len(xs); i += n {
+		out = append(out, xs[i])
+	}
+	return out
+}
+
+type profile struct {
+	name   string
+	params map[string]interface{}
+}
+
+func acceptUnits(c *checkCtx, check string) []*interp.Unit {
+	cli := groups["cli"]
+	specs := append(evalList(c, "vFamilyCurated"), evalList(c, "vFamilyEnd")...)
+	gen := evalList(c, "vFamilyGenerated")
+	var profs []profile
+	if c.quick() {
+		specs = append(specs, everyNth(gen, 16, c.seed)...)
+		profs = []profile{
+			{"raw K<=2 L<=3", map[string]interface{}{"profile": "raw", "K": 2, "L": 3}},
+			{"tmpl K<=2 Lp<=1", map[string]interface{}{"profile": "tmpl", "K": 2, "Lp": 1}},
+		}
+	} else {
+		specs = append(specs, gen...)
+		profs = []profile{
+			{"raw K<=2 L<=4", map[string]interface{}{"profile": "raw", "K": 2, "L": 4}},
+			{"tmpl K<=3 Lp<=1", map[string]interface{}{"profile": "tmpl", "K": 3, "Lp": 1}},
+		}
+	}
+	var us []*interp.Unit
+	for _, sp := range specs {
+		for _, pr := range profs {
+			ps := map[string]interface{}{"spec": sp, "check": check}
+			for k, v := range pr.params {
+				ps[k] = v
+			}
+			u := unit(cli, "H_accept", fmt.Sprintf("H_accept[%q %s]", sp, pr.name), ps)
+			u.Samples = 1
+			us = append(us, u)
+		}
+	}
+	return us
+}
+
 func init() {
+	reg(&propDef{
+		ID: "C01", Level: "model_checking",
+		Units: func(c *checkCtx) []*interp.Unit { return acceptUnits(c, "C01") },
+		Bounds: func(c *checkCtx) map[string]interface{} {
+			if c.quick() {
+				return map[string]interface{}{"specs": "curated + END family + every 16th generated spec (rotated by VERIF_SEED)", "raw": "K<=2 tokens of L<=3 arbitrary bytes", "template": "K<=2 items over 20 documented/malformed shapes, payload <=1 byte"}
+			}
+			return map[string]interface{}{"specs": "curated + END family + all generated specs", "raw": "K<=2 tokens of L<=4 arbitrary bytes", "template": "K<=3 items over 20 documented/malformed shapes, payload <=1 byte"}
+		},
+		Assumptions: append([]string{"declaration table: flags -a/--aa -b/--bb, valued -o/--oo -e/--ee (string lists), arguments X Y; no environment variables", "no token equals -h/--help (C14); no folded token with '=' after a flag; inputs of DESIGN.md 4.5 (iv) excluded for specs containing `--`", "flag values written as -a=v convert through strconv.ParseBool modelled as an uninterpreted function shared by implementation and reference"}, commonAssumptions...),
+		Outside:     []string{"command lines longer than K tokens / L bytes", "specs outside the family", "other declaration tables"},
+	})
+	reg(&propDef{
+		ID: "C02", Level: "model_checking",
+		Units: func(c *checkCtx) []*interp.Unit { return acceptUnits(c, "C02") },
+		Bounds: func(c *checkCtx) map[string]interface{} { return props["C01"].Bounds(c) },
+		Assumptions: props["C01"].Assumptions,
+		Outside:     props["C01"].Outside,
+	})
 	lex := groups["lexer"]
+	par := groups["parser"]
+	cli := groups["cli"]
+	specUnits := func(entry string, specs []string, profs []profile, samples int) []*interp.Unit {
+		var us []*interp.Unit
+		for _, sp := range specs {
+			for _, pr := range profs {
+				ps := map[string]interface{}{"spec": sp}
+				for k, v := range pr.params {
+					ps[k] = v
+				}
+				u := unit(cli, entry, fmt.Sprintf("%s[%q %s]", entry, sp, pr.name), ps)
+				u.Samples = samples
+				us = append(us, u)
+			}
+		}
+		return us
+	}
+	endFree := func(specs []string) []string {
+		var out []string
+		for _, s := range specs {
+			if !containsEnd(s) {
+				out = append(out, s)
+			}
+		}
+		return out
+	}
+	withOption := func(specs []string) []string {
+		var out []string
+		for _, s := range specs {
+			if hasOption(s) {
+				out = append(out, s)
+			}
+		}
+		return out
+	}
+
 	reg(&propDef{
 		ID: "C08", Level: "model_checking",
 		Units: func(c *checkCtx) []*interp.Unit {
-			ls := pick(c, 4, 5)
-			var us []*interp.Unit
-			us = append(us, unit(lex, "H_lex_ref", fmt.Sprintf("H_lex_ref[Ls<=%d]", ls), map[string]interface{}{"Ls": ls}))
-			return us
+			ls, k, ld := pick(c, 4, 5), pick(c, 4, 5), pick(c, 4, 5)
+			return []*interp.Unit{
+				unit(lex, "H_lex_ref", fmt.Sprintf("H_lex_ref[Ls<=%d]", ls), map[string]interface{}{"Ls": ls}),
+				unit(par, "H_parse_ref", fmt.Sprintf("H_parse_ref[k<=%d]", k), map[string]interface{}{"k": k}),
+				unit(cli, "H_doinit_total", fmt.Sprintf("H_run_panics[Ls<=%d]", ld), map[string]interface{}{"Ls": ld}),
+			}
 		},
 		Bounds: func(c *checkCtx) map[string]interface{} {
-			return map[string]interface{}{"Ls_max_spec_bytes": pick(c, 4, 5)}
+			return map[string]interface{}{"H_lex_ref": fmt.Sprintf("all byte strings of <= %d bytes (symbolic bytes, solver-decided classes)", pick(c, 4, 5)),
+				"H_parse_ref": fmt.Sprintf("all sequences of <= %d tokens over 16 token kinds (declared and undeclared names); kinds are case splits enumerated by the engine", pick(c, 4, 5)),
+				"H_run_panics": fmt.Sprintf("Run on all spec byte strings of 1..%d bytes over the table {-a/--aa, -o/--oo, X}", pick(c, 4, 5))}
 		},
 		Assumptions: commonAssumptions,
-		Outside:     []string{"spec strings longer than the stated number of bytes"},
+		Outside:     []string{"spec strings longer than the stated number of bytes / tokens", "declaration tables other than {a/aa flag, o/oo valued, X}"},
 	})
 	reg(&propDef{
 		ID: "C03", Level: "model_checking",
 		Units: func(c *checkCtx) []*interp.Unit {
-			ls := pick(c, 4, 5)
-			return []*interp.Unit{unit(lex, "H_lex_total", fmt.Sprintf("H_lex_total[Ls<=%d]", ls), map[string]interface{}{"Ls": ls})}
+			ls, ld := pick(c, 4, 5), pick(c, 4, 5)
+			us := []*interp.Unit{
+				unit(lex, "H_lex_total", fmt.Sprintf("H_lex_total[Ls<=%d]", ls), map[string]interface{}{"Ls": ls}),
+				unit(cli, "H_doinit_total", fmt.Sprintf("H_doinit_total[Ls<=%d]", ld), map[string]interface{}{"Ls": ld}),
+			}
+			specs := append(evalList(c, "vFamilyEnv"), evalList(c, "vFamilyEnvEnd")...)
+			cur := append(evalList(c, "vFamilyCurated"), evalList(c, "vFamilyEnd")...)
+			var profs []profile
+			if c.quick() {
+				specs = append(specs, everyNth(cur, 6, c.seed)...)
+				profs = []profile{{"raw K<=2 L<=2", map[string]interface{}{"profile": "raw", "K": 2, "L": 2}}}
+			} else {
+				specs = append(specs, cur...)
+				specs = append(specs, everyNth(evalList(c, "vFamilyGenerated"), 8, c.seed)...)
+				profs = []profile{{"raw K<=2 L<=3", map[string]interface{}{"profile": "raw", "K": 2, "L": 3}},
+					{"tmpl K<=2 Lp<=1", map[string]interface{}{"profile": "tmpl", "K": 2, "Lp": 1}}}
+			}
+			return append(us, specUnits("H_apply_total", specs, profs, 1)...)
 		},
 		Bounds: func(c *checkCtx) map[string]interface{} {
-			return map[string]interface{}{"Ls_max_spec_bytes": pick(c, 4, 5)}
+			return map[string]interface{}{"H_lex_total/H_doinit_total": fmt.Sprintf("all spec byte strings of <= %d bytes", pick(c, 4, 5)),
+				"H_apply_total": "env-heavy + curated (+ generated, thorough) specs x every subset of the 4 options backed by a set environment variable x argv " + map[bool]string{true: "raw K<=2 L<=2", false: "raw K<=2 L<=3 and template K<=2"}[c.quick()],
+				"unwinding": "recursion depth of fsm apply <= (bytes+tokens+2)*(4*len(spec)+6); calls of simplifySelf <= 40*(len(spec)+2)^2; 20M interpreted instructions per path"}
 		},
 		Assumptions: commonAssumptions,
-		Outside:     []string{"spec strings longer than the stated number of bytes"},
+		Outside:     []string{"specs / argument vectors beyond the bounds", "\"promptly\" is read as the derived step bounds, not wall-clock time"},
 	})
+	reg(&propDef{
+		ID: "C09", Level: "model_checking",
+		Units: func(c *checkCtx) []*interp.Unit {
+			cur := endFree(evalList(c, "vFamilyCurated"))
+			gen := endFree(evalList(c, "vFamilyGenerated"))
+			if c.quick() {
+				specs := append(everyNth(cur, 3, c.seed), everyNth(gen, 64, c.seed)...)
+				return specUnits("H_dd_insert", specs, []profile{{"tmpl K<=2 Lp<=1", map[string]interface{}{"profile": "tmpl", "K": 2, "Lp": 1}}, {"raw K<=2 L<=2", map[string]interface{}{"profile": "raw", "K": 2, "L": 2}}}, 1)
+			}
+			specs := append(cur, everyNth(gen, 4, c.seed)...)
+			return specUnits("H_dd_insert", specs, []profile{{"tmpl K<=3 Lp<=1", map[string]interface{}{"profile": "tmpl", "K": 3, "Lp": 1}}, {"raw K<=2 L<=3", map[string]interface{}{"profile": "raw", "K": 2, "L": 3}}}, 1)
+		},
+		Bounds: func(c *checkCtx) map[string]interface{} {
+			return map[string]interface{}{"insertion": "every insertion point 0..K whose tail consists of non-dash positionals, including the very end",
+				"argv": map[bool]string{true: "template K<=2 items (payload 1 byte), raw K<=2 L<=2", false: "template K<=3 items, raw K<=2 L<=3"}[c.quick()],
+				"specs": "`--`-free curated and generated specs (subset rotated by VERIF_SEED); verbatim binding after `--` and spec-level `--` are covered by C01/C02 on the END family"}
+		},
+		Assumptions: append([]string{"no environment-backed options; token p-1 is not a valued option waiting for its value; no `--` before the insertion point"}, commonAssumptions...),
+		Outside:     []string{"longer command lines"},
+	})
+	reg(&propDef{
+		ID: "C10", Level: "model_checking",
+		Units: func(c *checkCtx) []*interp.Unit {
+			all := withOption(endFree(append(evalList(c, "vFamilyCurated"), evalList(c, "vFamilyGenerated")...)))
+			if c.quick() {
+				return specUnits("H_respell", everyNth(all, 48, c.seed), []profile{{"n<=2 Lp<=1", map[string]interface{}{"n": 2, "Lp": 1}}}, 1)
+			}
+			us := specUnits("H_respell", everyNth(all, 6, c.seed), []profile{{"n<=2 Lp<=2", map[string]interface{}{"n": 2, "Lp": 2}}}, 1)
+			return append(us, specUnits("H_respell", everyNth(all, 48, c.seed), []profile{{"n<=3 Lp<=1", map[string]interface{}{"n": 3, "Lp": 1}}}, 1)...)
+		},
+		Bounds: func(c *checkCtx) map[string]interface{} {
+			return map[string]interface{}{"items": map[bool]string{true: "n<=2 items, payload 1 symbolic byte", false: "n<=2 items payload <=2 bytes; n<=3 items payload 1 byte"}[c.quick()],
+				"spellings": "every form (4 for flags, 5 for valued options) and every legal folding of adjacent short forms, compared with the canonical spelling (one token per occurrence, long form with '=')"}
+		},
+		Assumptions: append([]string{"values are non-empty and do not start with '-' (separate form) or '=' (attached form); no option item after a `--` item", "forms and folds are case splits enumerated by the engine; payload bytes are symbolic"}, commonAssumptions...),
+		Outside:     []string{"more than n occurrences"},
+	})
+	reg(&propDef{
+		ID: "C11", Level: "model_checking",
+		Units: func(c *checkCtx) []*interp.Unit {
+			all := withOption(endFree(append(evalList(c, "vFamilyCurated"), evalList(c, "vFamilyGenerated")...)))
+			if c.quick() {
+				us := specUnits("H_swap", everyNth(all, 24, c.seed), []profile{{"n<=2 Lp<=1", map[string]interface{}{"n": 2, "Lp": 1}}}, 1)
+				return append(us, specUnits("H_swap", everyNth(all, 192, c.seed), []profile{{"n<=3 Lp<=1", map[string]interface{}{"n": 3, "Lp": 1}}}, 1)...)
+			}
+			return specUnits("H_swap", everyNth(all, 8, c.seed), []profile{{"n<=3 Lp<=1", map[string]interface{}{"n": 3, "Lp": 1}}}, 1)
+		},
+		Bounds: func(c *checkCtx) map[string]interface{} {
+			return map[string]interface{}{"items": "n<=3 items, payload 1 symbolic byte; every adjacent pair of occurrences of different options; every spelling incl. folded pairs"}
+		},
+		Assumptions: append([]string{"both occurrences precede any `--`"}, commonAssumptions...),
+		Outside:     []string{"more than n occurrences"},
+	})
+	reg(&propDef{
+		ID: "C12", Level: "model_checking",
+		Units: func(c *checkCtx) []*interp.Unit {
+			specs := append(evalList(c, "vFamilyEnv"), evalList(c, "vFamilyEnvEnd")...)
+			cur := append(evalList(c, "vFamilyCurated"), evalList(c, "vFamilyEnd")...)
+			if c.quick() {
+				return specUnits("H_envmono", append(everyNth(specs, 2, c.seed), everyNth(cur, 16, c.seed)...), []profile{{"tmpl K<=2 Lp<=1", map[string]interface{}{"profile": "tmpl", "K": 2, "Lp": 1}}}, 1)
+			}
+			specs = append(specs, cur...)
+			return specUnits("H_envmono", specs, []profile{{"tmpl K<=2 Lp<=1", map[string]interface{}{"profile": "tmpl", "K": 2, "Lp": 1}}, {"raw K<=2 L<=3", map[string]interface{}{"profile": "raw", "K": 2, "L": 3}}}, 1)
+		},
+		Bounds: func(c *checkCtx) map[string]interface{} {
+			return map[string]interface{}{"env": "every subset of {VA,VB,VO,VE} set to a fixed valid value (symbolic bits)", "argv": "template K<=2 items over 20 shapes" + map[bool]string{true: "", false: "; raw K<=2 L<=3"}[c.quick()],
+				"specs": "env-heavy shapes + curated + END family (quick: a rotated subset)"}
+		},
+		Assumptions: append([]string{"value-identity clause only for specs without `--`", "differential clause (acceptance with env == reference with env fallback) only for specs without option groups"}, commonAssumptions...),
+		Outside:     []string{"longer command lines", "invalid environment values (C06)"},
+	})
+}
+
+func containsEnd(s string) bool {
+	for i := 0; i+1 < len(s); i++ {
+		if s[i] == '-' && s[i+1] == '-' && (i+2 == len(s) || s[i+2] == ' ' || s[i+2] == '\t') {
+			return true
+		}
+	}
+	return false
+}
+
+func hasOption(s string) bool {
+	for i := 0; i+1 < len(s); i++ {
+		if s[i] == '-' && s[i+1] != ' ' {
+			return true
+		}
+		if s[i] == 'O' && s[i+1] == 'P' {
+			return true
+		}
+	}
+	return false
 }
